@@ -20,6 +20,7 @@ from . import common as C
 
 ASSUMES = ["shipped representations are at most 128 bits wide", "foreign constructors (ipnet/ipnetwork/cidr new) accept len <= width"]
 LEVEL_TEXT = __doc__
+ALL_SUBSETS = True   # thorough tier: all 16 feature subsets (rules read configuration-dependent code)
 WIDTH_CALLS = ("count_zeros", "BITS", "size_of", "leading_zeros")
 
 
